@@ -772,6 +772,13 @@ def r3_kernel_helpers(ctx):
                     t = t[1]
                 elif t[0] in ("loopin", "loopout") and t[1] == kparam[1]:
                     return d, kparam
+                elif t[0] == "loopout" and len(t) == 4:
+                    t = t[3]            # an element binding whose own elements are changed by an inner walk: what it was bound to
+                elif t[0] == "loopin" and len(t) == 3:
+                    hits = e6.find_terms(tuple(p.eff) + (val,), lambda u_: u_[0] == "loopout" and len(u_) == 4 and u_[1] == t[1] and u_[2] == t[2])
+                    if not hits:
+                        break
+                    t = hits[0][3]
                 else:
                     break
             return d, t
